@@ -9,7 +9,8 @@ Bounded exhaustive enumeration on the real `Table` API (depth-1 space from sever
                    columns = {-3..3} u {m-2..m+2} u {999, 1000, 1001},
                    methods = cell, write, set_cell_style, set_cell_formatting, set_cell_border,
                    notations = (row, col), "A1", "$A$1", "$A1", "A$1", lower case, and the "A0" forms of row -1.
-                   Every call starts from a freshly built table. Calls that are expected to succeed by
+                   Every call starts from a freshly built table, or from one that an earlier call provably
+                   left equal to its initial state (at most 100 reuses). Calls that are expected to succeed by
                    growing the table are executed when the growth is affordable (see `affordable`);
                    the 1,000,000-row growth runs in the thorough tier only.
   iterator phase   iter_rows / iter_cols x kinds (fresh) x every (min_row, max_row, min_col, max_col)
@@ -160,7 +161,18 @@ def _verify_fill(tb, n, m):
 
 
 def build(kind):
-    """-> (doc, table, style). Deterministic; every caller gets the same initial state."""
+    """-> (doc, table, style). Deterministic; every caller gets the same initial state. The set-up uses
+    only in-limit (row, col) writes and one in-limit A1 write; if it fails, that is reported as a
+    failure of the property (mechanism 'initial-state'), not as a harness error."""
+    try:
+        return _build(kind)
+    except SetupError:
+        raise
+    except Exception as e:  # noqa: BLE001
+        raise SetupError(f"building the initial {kind} table failed: {type(e).__name__}: {e}") from None
+
+
+def _build(kind):
     n, m, how = KINDS[kind]
     if how == "fresh":
         doc = Document(num_rows=n, num_cols=m)
@@ -246,8 +258,11 @@ def reference(kind):
     if key not in _REF:
         n, m, _ = KINDS[kind]
         _, tb, _ = build(kind)
-        tb.add_row()
-        tb.add_column()
+        try:
+            tb.add_row()
+            tb.add_column()
+        except Exception as e:  # noqa: BLE001
+            raise SetupError(f"add_row()/add_column() on the {kind} table failed: {type(e).__name__}: {e}") from None
         rows = tb.rows()
         if (tb.num_rows, tb.num_cols, len(rows)) != (n + 1, m + 1, n + 1):
             raise SetupError("add_row()/add_column() did not produce the (n+1)x(m+1) reference table")
@@ -499,7 +514,7 @@ def eval_case(case):
     if case[0] == "iter":
         return eval_iter(case)
     _, kind, r, c, method, only, _ = case
-    fails, stats = [], {"calls": 0, "outcomes": [], "keys": []}
+    fails, stats = [], {"calls": 0, "outcomes": []}
     base = None
     try:
         for label, pos in notations(r, c):
@@ -531,7 +546,7 @@ def eval_case(case):
                 gc.collect()
             del obs
     except SetupError as e:
-        fails.append(({"mechanism": "initial-state", "class": kind, "notation": "rc", "pattern": "fill-not-on-grid"}, str(e)))
+        fails.append(({"mechanism": "initial-state", "class": kind, "notation": "rc", "pattern": "setup-failed"}, str(e)))
     return fails, stats
 
 
@@ -557,11 +572,11 @@ def light_state(tb):
 def eval_iter(case, shared=None):
     _, kind, which, a, b, c, d, _ = case
     n, m, _ = KINDS[kind]
-    fails, stats = [], {"calls": 0, "outcomes": [], "keys": []}
+    fails, stats = [], {"calls": 0, "outcomes": []}
     try:
         tb = shared if shared is not None else build(kind)[1]
     except SetupError as e:
-        return [(({"mechanism": "initial-state", "class": kind, "notation": "rc", "pattern": "fill-not-on-grid"}), str(e))], stats
+        return [(({"mechanism": "initial-state", "class": kind, "notation": "rc", "pattern": "setup-failed"}), str(e))], stats
     grid = [list(x) for x in tb.rows()]
     before = light_state(tb)
     lo_r, hi_r = (0 if a is None else a), (n - 1 if b is None else b)
@@ -692,7 +707,10 @@ def work(task):
                 for c in bound_alphabet(m, tier):
                     for d in bound_alphabet(m, tier):
                         if shared is None:
-                            shared = build(kind)[1]
+                            try:
+                                shared = build(kind)[1]
+                            except SetupError:
+                                shared = None  # eval_iter rebuilds and reports it
                         case = ("iter", kind, which, a, b, c, d, SEED)
                         fails, stats = eval_iter(case, shared)
                         if fails:
